@@ -11,6 +11,10 @@ CLAIMS = {
          "Structural necessary-and-nearly-sufficient conditions of the hardened environment, decided on the SSA of /repo on every run: the function feeding packages.Config.Env returns append(filtered, constants) as its last step, the filtered list receives only unmodified os.Environ() elements and only on the path where every case-insensitive KEY= test fails, filtered keys == override keys, the five required overrides are present, and every packages.Load in production code receives such a config (through wrappers to all callers). This is a whole-input argument (it holds for every ambient environment) that the three sampled environments of the unit test cannot give.",
          "Trusts go/types+go/ssa (x/tools v0.29.0), the documented behaviour of strings.ToUpper/HasPrefix and os.Environ, and that the go command lets the last duplicate win (none survive when the rule holds).",
          "DESIGN.md §4 C15"),
+ "C13": ("must-pass-through (edge-cut on SSA CFG, incl. the check-every-element loop form), constant-set extraction for the verdict switch, forward taint of the commit message, who-may-assign census of Verdict fields and of the nonce generator",
+         "The audit path is a finite control structure with constant tables, so its fail-closed behaviour is decided for every sequence of provider responses rather than sampled: return 0 only on the MATCH equality edge (other gating constants proven unreachable through the whitelist), all other returns non-zero constants, main maps err/status to a non-zero exit; stored results are constant ERROR, constant MATCH only on the no-high-risk edge, or the provider value only under sentinel-safe ∧ sentinel-ok ∧ provider-ok ∧ validator-ok; whitelist ⊆ {MATCH,SUSPICIOUS,LIE}; sentinel answers false on every error; HTTP success only under status==200 and role test; commit message reaches the payload only via json.Marshal*, truncated, between two delimiters filled from one crypto/rand nonce.",
+         "Trusts go/types+go/ssa, encoding/json's string escaping, os.Exit. Does not decide the JSON-extraction regexes' behaviour on hostile text nor anything about the model.",
+         "DESIGN.md §4 C13"),
 }
 
 PENDING_REASON = "static check for this property is not armed yet in this revision of the machinery (see DESIGN.md §4 for the planned structural clauses); not claimed until its rules run silent on the tree and fire on their mutants"
